@@ -454,6 +454,21 @@ def tree_case(ctx):
         ctx.check("C03.operands_untouched",
                   all(core.field_digest(f) == d for (f, _), d in zip(fields, before)),
                   tree=tree[:400], after_inplace_writes=True)
+    # reflected operators on an unsigned-integer field (a material index, a grey-scale
+    # image) with a real number on the left: number (op) array in plain numpy
+    u = df.Field(mesh, nvdim=1, value=rng.integers(0, 200, (*mesh.n, 1)), dtype=np.uint8,
+                 valid=gen.rand_valid(rng, mesh.n))
+    c = float(np.round(rng.uniform(-300, 300), 2))
+    for name, fn in (("rsub", lambda a, b: a - b), ("radd", lambda a, b: a + b),
+                     ("rmul", lambda a, b: a * b), ("rtruediv", lambda a, b: a / (b + 1))):
+        okc, r = ctx.expect_ok("C03.reflected_unsigned.defined", fn, c, u, what={"op": name, "number": c})
+        if okc:
+            with np.errstate(all="ignore"):
+                exp = fn(c, u.array)
+            ctx.check("C03.node.values", isinstance(r, df.Field) and r.array.shape == exp.shape
+                      and np.array_equal(r.array, exp) and np.array_equal(r.valid, u.valid),
+                      op=name, node=f"{name}({c}, uint8 field)", tree="reflected operator on an unsigned-integer field",
+                      operand_dtypes=["float", "uint8"], maxdiff=core.maxdiff(r.array, exp))
     ctx.sig(("tree", spec.nd, tuple(sorted(root.ops())), tuple(sorted({d for _, d in fields}))),
             nontrivial=root.count() >= 2)
     if ctx.i % 50 == 0:
